@@ -167,7 +167,7 @@ func c18WaitListening(kind, addr string) bool {
 
 func TestVerifC18Servers(t *testing.T) {
 	L := ev.Begin("C18", "c18-servers", "exploration",
-		"scenario matrix on real servers started through fabio's own ListenAndServe*: listener {http, https, tcp, grpc, https+tcp+sni} x in-flight work {none, finishes when released, never ends (hanging handler / open tunnel / open gRPC stream) with a wait of 300ms and of 0} x shutdown moment {before any request, request inside its handler, released right after shutdown began}, sequenced by causal barriers (handler-entered and listener-refuses-connect signals), then proxy.Shutdown(wait); plus every ordered pair of an idle and a busy listener of different kinds whose work ends 300 ms after shutdown began, also with both on the same port number of two local addresses (127.0.0.1:P, 127.0.0.2:P). oracle: after shutdown began connects fail; released work completes with its normal result; Shutdown returns within wait + 5s slack (a miss means 'did not return'). non-trivial = every scenario")
+		"scenario matrix on real servers started through fabio's own ListenAndServe*: listener {http, https, tcp, grpc, https+tcp+sni} x in-flight work {none, finishes when released, never ends (hanging handler / open tunnel / open gRPC stream) with a wait of 300ms and of 0} x shutdown moment {before any request, request inside its handler, released right after shutdown began}, sequenced by causal barriers (handler-entered and listener-refuses-connect signals), then proxy.Shutdown(wait); plus every ordered pair of an idle and a busy listener of different kinds whose work ends 300 ms after shutdown began, also with both on the same port number of two local addresses (127.0.0.1:P, 127.0.0.2:P). plus four listeners with never-ending work and a wait of 2s. oracle: after shutdown began connects fail (on every listener, also while others are still draining); released work completes with its normal result; Shutdown returns within wait + 5s slack (a miss means 'did not return'). non-trivial = every scenario")
 	kinds := []string{"http", "https", "tcp", "grpc", "https+tcp+sni"}
 	type scn struct {
 		kind string
@@ -271,6 +271,58 @@ func TestVerifC18Servers(t *testing.T) {
 		}
 		L.Sample(d)
 		close(wi.release)
+	}
+	// four listeners, each with work that never ends, wait 2s: the listeners are shut down together - all
+	// refuse new connections from the start and the whole shutdown is bounded by one wait, not by their sum
+	{
+		kinds4 := []string{"http", "tcp", "grpc", "http"}
+		var addrs []string
+		var works []*c18Work
+		for _, k := range kinds4 {
+			addr := c18FreeAddr()
+			w := newC18Work()
+			do := c18Start(k, addr, w)
+			if !c18WaitListening(k, addr) {
+				panic("VERIF-INFRA: listener did not come up")
+			}
+			go do()
+			select {
+			case <-w.entered:
+			case <-time.After(20 * time.Second):
+				panic("VERIF-INFRA: work never entered its handler")
+			}
+			addrs, works = append(addrs, addr), append(works, w)
+		}
+		L.Case()
+		L.NontrivialKey("four-busy-listeners")
+		d := map[string]interface{}{"listeners": kinds4, "in_flight": "never ends (each)", "wait": "2s"}
+		returned := make(chan struct{})
+		start := time.Now()
+		go func() { Shutdown(2 * time.Second); close(returned) }()
+		time.Sleep(time.Second) // half the wait: closing listeners is the first thing a shutdown does
+		var open []string
+		for i, k := range kinds4 {
+			if c, err := c18Dial(k, addrs[i]); err == nil {
+				c.Close()
+				open = append(open, fmt.Sprintf("%s@%s", k, addrs[i]))
+			}
+		}
+		if len(open) > 0 {
+			d["still_accepting_1s_into_the_shutdown"] = open
+			L.Violation("listener-accepts-while-other-listeners-are-being-shut-down", d)
+		}
+		select {
+		case <-returned:
+			d["shutdown_returned_after"] = time.Since(start).String()
+		case <-time.After(2*time.Second + 5*time.Second):
+			d["shutdown_returned_after"] = "not within wait + 5s"
+			L.Violation("shutdown-did-not-return-within-the-wait/four-listeners", d)
+			<-returned
+		}
+		L.Sample(d)
+		for _, w := range works {
+			close(w.release)
+		}
 	}
 	var cleanup []*c18Work
 	for _, s := range scs {
